@@ -335,3 +335,242 @@ leaf's buffer; that this is faithful is checked by the correspondence (Vec::from
         ("C18_model_forward_roots", "model_forward_roots", "after forward the previous output is no longer a root"),
         ("C18_update_fresh_params", "model_update_fresh_params", "after update every stepped parameter is a fresh childless node with a buffer of its own"),
     ])
+
+PROG2 = """From Coq Require Import List Arith Bool.
+From Corgi Require Import Lib.OptionMonad Model.Scalar Model.Arr Model.SlicedOp Model.Elementwise Model.Linalg
+     Model.Image Model.Ops Model.Engine Proofs.ArrFacts Proofs.SpecDefs Proofs.EngineDefs Proofs.EngineBase
+     Proofs.OptimSpec Proofs.MatmulSpec Proofs.ConvSpec Model.Program Proofs.ProgramFacts Proofs.ProgramValues.
+Import ListNotations."""
+
+TABLE["C08"] = dict(
+    title="Arrays are immutable: no operation changes an existing array's values or shape",
+    imports=PROG2,
+    intro="""[step O s i] executes one instruction of a history (operation, clone, drop, flag change, backward pass, gradient
+read/clear/fetch, optimizer update, model forward/backward/update ...).  [C08_step_frame]: whatever the instruction,
+every node that exists keeps its payload (dimensions, values, buffer identity) and its children; the node list only
+grows; every pool slot the instruction does not explicitly re-bind keeps its handle.  [rebound i] lists the re-bound
+slots: the slot of IDrop/ITakeVec/ITracked/IUntracked/IStart/IStop, the parameter slots of IUpdate.  Unconditional: no
+well-formedness premise at all.  What the model cannot exhibit: mutation through unsafe code or FFI (snapshot runs and
+the informational source audit cover that side).""",
+    items=[
+        ("C08_step_frame", "step_frame", "the frame property of every instruction"),
+        ("C08_live_handles", "step_live_handle", "every live handle the instruction does not re-bind denotes the same array before and after"),
+        ("C08_histories", "run_frame", "the same over whole programs"),
+        ("C08_backward_payloads", "backward_pay", "a backward pass changes no payload (no premise)"),
+        ("C08_backward_children", "backward_children", "... and no child entry"),
+        ("C08_update_rebinds", "gd_update_spec", "an optimizer update re-binds parameters to fresh nodes and leaves every old node's payload intact"),
+    ])
+
+TABLE["C12"] = dict(
+    title="Handles are transparent: clones, drops and re-binding never change results",
+    imports=PROG2,
+    intro="""In the model a handle is the triple (node, tracked flag, keep flag); every cell of the array lives in the
+node.  These theorems are the model-level statement of transparency; that Rust's [Clone] really shares every cell
+(and copies the flags) is what the correspondence establishes (random programs against variants with clones, drops
+and re-bound handles, corgi against corgi bitwise).""",
+    items=[
+        ("C12_clone", "step_clone", "Clone pushes exactly the same handle and changes nothing else"),
+        ("C12_gradient_by_node", "grad_of_node_only", "the gradient read through a handle depends only on its node: deposited through any clone, seen through every other"),
+        ("C12_values_by_node", "h_arr_node_only", "... and so do the values"),
+        ("C12_clear_by_node", "clear_grad_node_only", "... and clearing"),
+        ("C12_operand_clone", "step_op_clone", "replacing an operand by a slot holding an equal handle gives literally the same step"),
+        ("C12_read_clone", "step_read_clone", "the same for backward, gradient reads, observations, forward, model backward"),
+        ("C12_drop", "step_drop", "Drop only empties its slot"),
+        ("C12_flag_independent", "clone_flag_independent", "setting a flag on one handle changes no other handle"),
+    ])
+
+TABLE["C15"] = dict(
+    title="Layers, activations, costs and the model compute their documented formulas",
+    imports=PROG2,
+    intro="""Values of the result arrays of [layer_forward], [model_forward], [cost_apply], [model_backward] (Program.v), in
+the literal form the code computes (no ring assumption).  The activation values are Props/C07.v's relu / sigmoid /
+softmax specs, reached through [act_fwd].""",
+    items=[
+        ("C15_dense", "dense_forward_value", "dense layer on a batch of row vectors: element (J, o) = b[o] + sum_k x[J,k] * W[o,k]"),
+        ("C15_dense_vector", "dense_forward_value_vec", "dense layer on a single vector (result dims [1; nout])"),
+        ("C15_conv", "conv_forward_value", "conv layer: conv(x, filters, stride) + one bias per filter"),
+        ("C15_model_forward", "model_forward_spec", "a model's forward is the composition of its layers in order (and records the output)"),
+        ("C15_mse", "cost_mse_value", "mse = (target - output)^2 / element count"),
+        ("C15_cross_entropy", "cost_ce_value", "cross-entropy = -target * ln(output) / leading dimension"),
+        ("C15_loss", "model_backward_loss", "Model::backward returns the sum of the cost array"),
+    ])
+
+TABLE["C09prog"] = dict(
+    title="(construction part) a result is tracked iff an operand is; untracked results keep no reference",
+    imports=PROG2,
+    intro="""[apply_op O s k hs] builds the result of operation k on the operand handles hs.  [op_res s s' h r t cs]: s' frames s,
+h is a fresh last node holding r, tracked = keep = t, childless without closure when t = false, children cs and a
+closure when t = true.""",
+    items=[
+        ("C09_result_tracking", "apply_op_tracking", "tracked iff some operand (matmul: including the additive term) is tracked; an untracked result is childless"),
+        ("C09_result_structure", "apply_op_res", "the structural form"),
+        ("C09_custom_always_tracked", "apply_op_custom", "Array::op with a closure always records (by design)"),
+        ("C09_sum0_is_clone", "apply_op_sum0", "sum(0) returns the operand handle itself"),
+        ("C09_backward_keeps_pool", "step_backward", "a pass leaves every pool handle (its flags included), every payload and every child entry as it found them"),
+        ("C09_flag_on_clone", "clone_flag_independent", "setting the flag on a clone never changes the original"),
+    ])
+
+TABLE["C19"] = dict(
+    title="The single-precision build gives the same results to single precision",
+    imports="""From Coq Require Import List Arith Bool.
+From Corgi Require Import Lib.OptionMonad Model.Scalar Model.Arr Model.SlicedOp Model.Elementwise Model.Linalg
+     Model.Image Model.Ops Model.Engine Model.Program Proofs.ShapeParametric.
+Import ListNotations.""",
+    intro="""corgi is written against the alias [Float] (f64, or f32 under the cargo feature); the model is written against
+an arbitrary record of scalar operations.  PROVED here (the part of C19 that is a theorem): for ANY two scalar
+instances, every forward operation, every derivative closure, the engine and every instruction of every program
+return results of the same dimensions, panic on exactly the same inputs and produce the same tracking flags,
+counts and observation structure - shapes, tracking and acceptance never depend on the scalar type
+([C19_programs], [C19_cast_programs] for a program whose constants are converted, e.g. rounded to f32).
+Excluded by construction: the booleans of [IEq] (value comparisons) and scalar values themselves.  NOT PROVED
+(and not provable with this technique here): closeness of f32 results to the f64 reference within single-precision
+rounding - that half is validated by the differential run against the --features f32 build (a test).""",
+    items=[
+        ("C19_programs", "run_rel", "whole programs: same panics, same observation kinds, dimensions, flags and lengths"),
+        ("C19_cast_programs", "run_cast", "a program and its image under any scalar conversion (f64 -> f32 rounding of the constants)"),
+        ("C19_same_panic", "run_same_panic", "same number of observations and the same panic flag"),
+        ("C19_step", "step_rel", "every one of the 27 instructions"),
+        ("C19_sliced_op", "sliced_op_rel", "the broadcasting workhorse"),
+        ("C19_closures", "run_bop_rel", "every derivative closure"),
+        ("C19_engine", "run_backward_rel", "the backward engine (an abstraction theorem over payload/adjoint relations)"),
+        ("C19_matmul", "a_matmul_rel", "matmul"), ("C19_conv", "conv_rel", "conv"),
+        ("C19_nonvacuous", "run_Z_unit", "instance: integers against the one-point scalar type"),
+    ])
+
+TABLE["C14"] = dict(
+    title="Each training iteration steps parameters along the true current-loss gradient",
+    imports="""From Coq Require Import List Arith Bool.
+From Corgi Require Import Lib.OptionMonad Lib.Sums Model.Scalar Model.Arr Model.SlicedOp Model.Elementwise Model.Linalg
+     Model.Image Model.Ops Model.Engine Proofs.ArrFacts Proofs.EngineDefs Proofs.AdjointSpec Proofs.OptimSpec
+     Proofs.HistoryInv Proofs.ValueConcrete Model.Program Proofs.TrainLoop.
+Import ListNotations.""",
+    intro="""[ready s]: the state invariant of the training loop - the program state is good (HistoryInv), every layer
+parameter is a tracked leaf without closure and WITHOUT gradient, parameter nodes are pairwise distinct.
+[C14_iteration]: from a ready state one forward / backward / update round (a) returns the sum of the cost array
+built from the current output and target, (b) re-binds every parameter to theta - lr*g element-wise where g is exactly
+the adjoint-table entry of the single pass on the cost node started from an EMPTY slot (so nothing of an earlier
+iteration is in it; that table entry is the exact gradient by C01), and (c) ends in a ready state again - the
+induction invariant; [C14_all_iterations_ready]: hence every iteration of any run, with arbitrary batches, starts
+and ends ready.  [C14_loss_is_function_of_parameters_and_batch]: the returned loss depends only on the current
+parameter arrays, the input and the target.  The adjoint table is that of the repaired engine E' of
+ValueConcrete.v (the real engine's run IS a run of E' on good stores).""",
+    items=[
+        ("C14_iteration", "train_iteration", "one iteration: loss, step of every parameter by its own fresh gradient, invariant re-established"),
+        ("C14_loss_is_function_of_parameters_and_batch", "iteration_loss_value", "the loss of the CURRENT parameters on the CURRENT batch"),
+        ("C14_construction_ready", "model_construction_ready", "the invariant holds after model construction"),
+        ("C14_all_iterations_ready", "train_prog_iterations_ready", "every iteration of any run starts and ends ready (no leak between iterations)"),
+        ("C14_run_ready", "train_ready", "the same for the direct-call formulation"),
+        ("C14_update_ready", "model_update_ready", "update turns an armed state (gradients present) into a ready one and steps each parameter with its own gradient"),
+        ("C14_slots_are_table_entries", "model_backward_slots", "after backward every parameter slot is old + adjoint-table entry"),
+        ("C14_double_backward", "double_backward_slots", "two backward calls before one update: the slot holds both tables' entries"),
+        ("C14_no_leak", "update_no_leak", "after update no layer handle refers to a node holding a gradient or a graph"),
+    ])
+
+CONC = """From Coq Require Import List Arith Bool Permutation.
+From Corgi Require Import Lib.OptionMonad Lib.Sums Model.Scalar Model.Arr Model.SlicedOp Model.Elementwise Model.Linalg
+     Model.Image Model.Ops Model.Engine Proofs.ArrFacts Proofs.EngineDefs Proofs.AdjointSpec Proofs.SweepBase
+     Proofs.SweepLinear Proofs.FlattenSpec Proofs.DualLift Proofs.LocalAdjoint Proofs.HistoryInv
+     Proofs.ValueConcrete Model.Program."""
+
+TABLE["C01concrete"] = dict(
+    title="(concrete engine) the gradients corgi stores are the transpose of the forward derivative",
+    imports=CONC + "\nFrom Corgi Require Import Proofs.SweepAdjointG Proofs.FwdCode Proofs.CodeSupport Proofs.HistoryVC Proofs.C01Concrete.\nImport ListNotations.",
+    intro="""For the concrete array engine [E O] of Model/Program.v over a commutative ring of scalars.
+[store_good g]: the store invariant that every program history maintains (HistoryInv.v); [value_consistent O g]:
+every operation node's value is the forward result of its closure's operation on its children's values (also an
+invariant of every history: [C01_history_invariant]); [supported g]: every closure in the graph has its local
+transpose identity proved - [C01_supported_graphs]: all graphs over add, mul, neg, scale, reshape, sum, powf,
+exp, relu (with div, ln, reciprocal under the real-number scalar laws: [C01_supported_graphs_div]); sub, axpy
+and softmax are compositions of these.  [tan O g lt n] is the forward (dual-number) tangent of node n when the
+leaves carry tangents [lt] and untracked entries are constants.
+[C01_backward_exact]:  <seed, tangent of the result> = sum over leaves <stored gradient, leaf tangent>,
+for every graph (any sharing, diamonds, self-products, depth) and every seed; [C01_partial_derivatives]: with unit
+tangents, component j of the gradient of leaf l is the seed-weighted partial derivative of the result w.r.t.
+that component.  PARTIAL: graphs containing matmul / unroll / expand / sigmoid / user closures are covered once
+their local identities are added to [supported] (Props/C02.v lists what is proved).""",
+    items=[
+        ("C01_backward_exact", "backward_exact", "reverse mode equals forward mode on the concrete engine"),
+        ("C01_partial_derivatives", "backward_partial", "each gradient component is the seed-weighted partial derivative"),
+        ("C01_histories", "history_backward_exact", "the same for the state reached by any program history"),
+        ("C01_supported_graphs", "proven_graph_supported", "graphs over the ring closures are supported"),
+        ("C01_supported_graphs_div", "proven_graph_div_supported", "... plus div, ln, reciprocal under the scalar division laws"),
+        ("C01_history_invariant", "step_good2", "every instruction preserves store_good and value_consistent"),
+        ("C01_guarded_identity", "adjoint_identity_g", "the guarded adjoint identity of the sweep"),
+    ])
+
+TABLE["C03hist"] = dict(
+    title="(every history) every stored gradient has its array's dimensions",
+    imports=CONC + "\nFrom Corgi Require Import Proofs.OpsWf.\nImport ListNotations.",
+    intro="""[good s] (HistoryInv.v) contains, for every node: a stored gradient x satisfies [grad_ok]: wf x and dims x = the
+node's dimensions.  [C03_every_instruction]: all 27 instructions preserve it (the only side condition: an explicit
+seed given to backward has the result's shape - corgi does not check that, and a wrong-shaped seed is outside every
+property); [C03_every_history]: hence in every state reached by any program every stored gradient has exactly its
+array's shape - first and later contributions, any graph, any number of uses, any number of passes.
+[C03_rank0_finding]: records that rank-0 arrays (accepted by the constructors, outside every property) cannot be
+added to themselves, which is why the abstract engine theorems are instantiated through a repaired addition.""",
+    items=[
+        ("C03_every_instruction", "step_good", "the invariant is preserved by every instruction"),
+        ("C03_every_history", "run_good", "and holds in every reachable state"),
+        ("C03_initial", "good_init", "it holds initially"),
+        ("C03_pass", "pass_good", "a pass preserves it (no algebra needed)"),
+        ("C03_closure_outputs_wf", "run_bop_wf", "every delta a built-in closure returns is well formed"),
+        ("C03_closure_contract", "run_bop_contract", "and closures return deltas exactly where their flags (or their unconditional nature) say"),
+        ("C03_rank0_finding", "add_ok_false", "rank-0 arrays break unconditional addition"),
+    ])
+
+TABLE["C10concrete"] = dict(
+    title="(concrete engine and programs) additivity across passes",
+    imports=CONC + "\nFrom Corgi Require Import Proofs.PassTheorems Proofs.ConcretePasses.\nImport ListNotations.",
+    intro="""The abstract theorems of Props/C10.v instantiated for the real array engine [E O] on [store_good] stores (what every
+program history maintains), over a commutative ring.  Tables are those of the repaired engine E' (ValueConcrete.v),
+whose addition IS [a_add] on the same-shaped non-scalar arrays a pass adds ([C10_repaired_add_is_add]).""",
+    items=[
+        ("C10c_no_residue", "pass_preserves_concrete", "a successful pass of the real engine keeps the store good (clean, no pending delta) with the same skeleton"),
+        ("C10c_independent", "pass_independent_concrete", "same skeleton => same adjoint table and closure calls, whatever passes ran before"),
+        ("C10c_two_passes", "two_passes_add_concrete", "two passes: each leaf holds (old + table1) + table2, tables computed stand-alone"),
+        ("C10c_histories", "steps_accumulate_concrete", "any sequence of passes and clears"),
+        ("C10c_backward_instruction", "step_backward_is_run_backward", "the IBackward instruction is exactly run_backward on the node store"),
+        ("C10c_clear_instruction", "step_cleargrad_is_clear_grad", "the IClearGrad instruction is exactly clear_grad"),
+        ("C10c_other_instructions", "step_other_appends", "every other non-cell instruction only appends nodes"),
+        ("C10_repaired_add_is_add", "add'_is_a_add", "the repaired addition is a_add on what a pass adds"),
+        ("C11c_once_complete", "closure_once_complete_concrete", "(C11) the real log: once, ordered, complete adjoints"),
+    ])
+
+TABLE["C17concrete"] = dict(
+    title="(concrete closures) every built-in derivative closure is linear in the delta",
+    imports=CONC + "\nFrom Corgi Require Import Proofs.PassTheorems Proofs.ConcretePasses Proofs.ConcreteLinear Proofs.ConcreteLinearPass.\nImport ListNotations.",
+    intro="""[acomb alpha beta x y] = alpha*x + beta*y element-wise.  [bop_linear alpha beta code]: run_bop of that closure
+commutes with acomb in the delta.  Proved for every bop_code; BDiv needs the named law that scalar division is
+linear in its numerator (a ring theory says nothing about fdiv; it holds for the reals).""",
+    items=[
+        ("C17c_pass_linear", "pass_linear_concrete", "three passes of the real engine with seeds s1, s2, alpha*s1+beta*s2: leaf gradients combine accordingly"),
+        ("C17c_pass_linear_proved", "pass_linear_proved", "... for every graph without a division node, unconditionally"),
+        ("C17c_all_closures", "all_linear", "every closure is linear (division law as hypothesis)"),
+        ("C17c_closures_without_div", "linear_proved_linear", "every closure except BDiv, unconditionally"),
+        ("C17c_flatten_linear", "flatten_to_lin", "flatten_to is linear"),
+        ("C17c_table_linear", "adjoints_linear_concrete", "the adjoint table is linear in the seed"),
+    ])
+
+TABLE["C02more"] = dict(
+    title="(matmul, convolution parts, sigmoid, user closures) local transpose identities",
+    imports=ARR + """
+From Corgi Require Import Model.Ops Proofs.FlattenSpec Proofs.MatmulSpec Proofs.ConvSpec Proofs.DualLift
+     Proofs.LocalAdjoint Proofs.LocalAdjoint2.""",
+    intro="""Same formulation as Props/C02.v.  Matmul: all four transposition pairs, all flag triples, arbitrary
+leading-dimension broadcasting, additive term of shape [cols], [rows; cols], [1; cols], [1] (flagged or not) or absent.
+Convolution is unroll_blocks ; reshape ; matmul ; expand_conv in corgi: the identities of unroll (whose transpose is the
+SUMMING roll - overlapping windows), expand (a per-image permutation) and matmul together with C01 give conv for every
+stride, filter size and batch.  Sigmoid uses the scalar law [Hsig] (the dual-number run of sigmoid has tangent
+s*(1-s)*x'), proved for the reals as Props/C02real.v's C02r_sigmoid_dual.  NOT covered: the rank-1 matmul forms
+(dot product, vector-left/right) - exercised by the correspondence and dual-number runs only.""",
+    items=[
+        ("C02_matmul", "matmul_local", "matmul with additive term"),
+        ("C02_matmul_no_additive_term", "matmul_local_absent", "matmul without additive term (third child is the untracked zero)"),
+        ("C02_unroll", "unroll_local", "unroll_blocks: the closure sums overlapping windows"),
+        ("C02_expand", "expand_local", "expand_conv"),
+        ("C02_sigmoid", "sigmoid_local", "sigmoid (under the scalar law Hsig)"),
+        ("C02_custom_mul", "cmul_local", "user-defined multiplication (the harness library's closure)"),
+        ("C02_custom_affine", "caff_local", "user-defined a + 2b"),
+        ("C02_custom_square", "csq_local", "user-defined square"),
+        ("C02_roll_value", "roll_g_spec", "value of the summing roll: each image element is the sum over all windows that cover it"),
+    ])
